@@ -454,6 +454,20 @@ struct Scratch(std::path::PathBuf);
 impl Scratch {
     fn new() -> Scratch {
         let n = COUNTER.fetch_add(1, AtomicOrdering::Relaxed);
+        if n == 0 {
+            // children that were killed (hang) or aborted could not remove their directory: sweep those of dead processes
+            if let Ok(rd) = std::fs::read_dir(std::env::temp_dir()) {
+                for e in rd.flatten() {
+                    let name = e.file_name().to_string_lossy().to_string();
+                    if let Some(rest) = name.strip_prefix("axh-btree-") {
+                        let pid = rest.split('-').next().unwrap_or("");
+                        if !pid.is_empty() && !std::path::Path::new("/proc").join(pid).exists() {
+                            let _ = std::fs::remove_dir_all(e.path());
+                        }
+                    }
+                }
+            }
+        }
         let d = std::env::temp_dir().join(format!("axh-btree-{}-{}", std::process::id(), n));
         let _ = std::fs::remove_dir_all(&d);
         std::fs::create_dir_all(&d).expect("scratch dir");
